@@ -221,9 +221,13 @@ class NoncodingMain(Contract):
     def loops(self):
         T = lambda I, env, k: []
         brk = lambda what: (lambda I, env, k: [(what, False)])
-        return {0: LoopSpec(inv=T, havoc=self.havoc0, on_break=brk('every-called-sequence-is-collected'), target_after='unknown'),
-                1: LoopSpec(inv=T, havoc=lambda I, env, k: None, on_head=self.head1, step=self.step1, on_break=brk('every-label-is-collected'), target_after='unknown'),
-                2: LoopSpec(inv=T, havoc=self.havoc2, on_head=self.head2, step=self.step2, on_break=brk('every-collected-sequence-becomes-a-record'), target_after='unknown')}
+        st = self._cur
+        return {0: LoopSpec(inv=T, havoc=self.havoc0, on_break=brk('every-called-sequence-is-collected'), target_after='unknown',
+                            on_exit=lambda I, env, n: [('all-called-sequences-were-visited', n == st.n_seq)]),
+                1: LoopSpec(inv=T, havoc=lambda I, env, k: None, on_head=self.head1, step=self.step1, on_break=brk('every-label-is-collected'), target_after='unknown',
+                            on_exit=lambda I, env, n: [('all-labels-of-the-sequence-were-visited', n == st.nlab(env['seq'].fields['m']))]),
+                2: LoopSpec(inv=T, havoc=self.havoc2, on_head=self.head2, step=self.step2, on_break=brk('every-collected-sequence-becomes-a-record'), target_after='unknown',
+                            on_exit=lambda I, env, n: [('all-collected-sequences-were-visited', n == st.n_seq)])}
 
     def post_return(self, I, st, ret):
         e = I.e
